@@ -109,6 +109,13 @@ mut("R24", V, "\t\tif (!KSI_DataHash_equals(sigRightLinkHash, extSigRightLinkHas
 mut("R25", V, "\tres = KSI_PublicationsFile_findPublication(tempData->publicationsFile,\n\t\t\t(const KSI_PublicationRecord*)sig->publication, &pubRec);",
     "\tres = KSI_PublicationsFile_findPublicationByTime(tempData->publicationsFile,\n\t\t\tsig->publication->publishedData->time, &pubRec);",
     "h_pubfile.n1_pub", "PUB-05 rule looks the publication up by time only")
+mut("R26", V, "\ttempData->calendarChain = tmp;\n\ttmp = NULL;\n", "",
+    "h_ext.head_nocal,h_e2e.cal_head", "receiveCalendarHashChain reports success without buffering the reply's chain")
+mut("T13", P, "\t{KSI_RULE_TYPE_BASIC, KSI_VerificationRule_ExtendedSignatureCalendarChainInputHash},\n\t{KSI_RULE_TYPE_BASIC, KSI_VerificationRule_ExtendedSignatureCalendarChainAggregationTime},\n\t{KSI_RULE_TYPE_BASIC, NULL}\n};\n\nstatic const KSI_Rule extendToCalendarChainRule",
+    "\t{KSI_RULE_TYPE_BASIC, KSI_VerificationRule_ExtendedSignatureCalendarChainInputHash},\n\t{KSI_RULE_TYPE_BASIC, NULL}\n};\n\nstatic const KSI_Rule extendToCalendarChainRule",
+    "hb_anchor.cal,h_e2e.cal_head", "calendar-based policy (extend to head): aggregation time not compared (CAL-03 rule dropped from extendToHeadRule)")
+mut("T14", P, "static const KSI_Rule calendarHashChainRule_cal[] = {\n\t{KSI_RULE_TYPE_COMPOSITE_OR, extendToHeadRule},", "static const KSI_Rule calendarHashChainRule_cal[] = {\n\t{KSI_RULE_TYPE_COMPOSITE_OR, emptyRules},\n\t{KSI_RULE_TYPE_COMPOSITE_OR, extendToHeadRule},",
+    "hb_anchor.cal,h_e2e.cal_status", "always-OK shortcut as first OR branch of the calendar-based anchor table")
 
 
 def sh(cmd, **kw):
